@@ -3,18 +3,22 @@ from vcommon import *
 import scen_common
 
 PID = "C09"
-PROP_V = ["Props/Properties_C09.v"]
+PROP_V = ["Props/Properties_C09.v", "Props/Properties_C09b.v", "Props/Properties_C08b.v"]
 GEN_MODULES = ["Consts", "Sites"]
 FLOW_FILES = ['note.c']
 REPLAY_HINT = "VRT_SEED=<seed> VRT_FAMILY=<f> _work/h/note_mix | note_f8 | note_f9"
-PARTIAL = ["C09_no_stuck is proved as C09_no_stuck_partial (no deadlock made of lock acquisitions alone: locks are taken in increasing note "
-           "order, every lock has an owner inside a call, whenever some thread is blocked on a note lock some thread inside a call is not) "
-           "with C09_lock_order / C09_lock_has_owner / C09_idle_unlocked; progress of the four condition waits (disconnecting == 0, "
-           "no children, children_changed, semaphore) needs a ranking argument and is kept as C09_no_stuck_full (Definition): decided by the "
-           "stuck detector over sampled schedules and by exhaustive exploration of the extracted model (no stuck state in > 100000 "
-           "configurations), not by a theorem",
-           "'a later notification of that ancestor still reaches them' rests on C08_descendants_full (see C08); what is proved is the "
-           "re-parenting / notify-instead step itself (C09_adoption, C09_free_post)"]
+PARTIAL = ["'no such call deadlocks' is PROVED in full on the model of the repaired code (Properties_C09b.C09_no_stuck_full_proved = the Definition "
+           "C09_no_stuck_full of Properties_C09: in every reachable non-broken world in which some thread is inside a call and not asleep in "
+           "nsync_note_wait's semaphore wait, some thread can take a step): ranking argument over the four condition waits (rank 0 for the "
+           "not_disconnecting waits, 2n+1 for the child waits on n, 2y+2 for a blocking lock of y; a blocked thread's responsible thread -- the "
+           "lock holder, or the thread counted in disconnecting (C09_disc_accounted) -- can step or is blocked at a strictly higher rank), on the "
+           "invariant InvS (Proof/NoteProof8-12); it uses the repairs F7, F10, F11 (children_changed = no children or adoptions differ from the "
+           "value read at the start of THIS pass).  Fair-schedule termination is not stated: no-stuck is the safety half",
+           "'a later notification of that ancestor still reaches them': Properties_C08b.C08_descendants_full_holds (creation-time descendants of a "
+           "notified note are notified once no notification is in progress, across adoptions), with C09_adoption / C09_free_post for the step itself",
+           "the stale-`seen_adoptions` shape (seeded change C09c: the value read once before the loop) alters no atomic site and no call order, so "
+           "neither the pinned inventory nor the flow pin sees it; it is caught by the directed scenario note_f9 VRT_T3=2 (livelock: a spin without "
+           "scheduling point is reported by the runtime after 2*10^7 plain accesses, or the step budget)"]
 TRUSTED_BASE = ["Model/NoteModel.v control skeleton: hand-written, validated by lock-step replay incl. the per-step footprint `touches` that "
                 "C09_no_uaf talks about (replay/note_replay.ml)", "harness/rt/vrt.c arena (freed notes are unmapped, never reused)"]
 
@@ -23,11 +27,12 @@ def run(tier, seed):
     import mu_common
     res = {"violations": [], "broken": [], "coverage": {}}
     tie = mu_common.tie(res, "note_replay", "NoteModel", [("note_mix", {"VRT_FAMILY": f}, 150, 1500) for f in (0, 1, 3)] +
-                        [("note_f8", {}, 100, 1000), ("note_f9", {}, 100, 1000)], tier, seed)
-    specs = [("note_mix", {"VRT_FAMILY": f}, 2500, 50000) for f in (0, 1, 3, 4)] + [("note_f8", {}, 4000, 60000), ("note_f9", {}, 2500, 40000), ("note_mix", {"VRT_PLAINPM": 40}, 2000, 40000)]
+                        [("note_f8", {}, 100, 1000), ("note_f9", {}, 100, 1000), ("note_f9", {"VRT_T3": 2}, 100, 1000)], tier, seed)
+    specs = [("note_mix", {"VRT_FAMILY": f}, 2500, 50000) for f in (0, 1, 3, 4)] + [("note_f8", {}, 4000, 60000), ("note_f9", {}, 2500, 40000), ("note_f9", {"VRT_T3": 2}, 2000, 30000),
+             ("note_mix", {"VRT_PLAINPM": 40}, 2000, 40000)]
     cov = scen_common.run_scenarios(res, specs, tier, seed, {"C08"} | scen_common.MEMORY | scen_common.LIVENESS | scen_common.CRASHES)
     cov["rule"] = ("note_mix families 0 (notify(P) | free(C) with grandchild | poll/wait G | new child), 1 (two notifiers of one child | "
-                   "free(parent)), 3; note_f8 (q->n->g: notify(q);free(q) | free(n) | free(g)), note_f9 (P->c->g: free(c) | free(P)); arena "
+                   "free(parent)), 3; note_f8 (q->n->g: notify(q);free(q) | free(n) | free(g)), note_f9 (P->c->g: free(c) | free(P) [| notify(g), VRT_T3=2: started once g has been handed to P]); arena "
                    "that unmaps freed notes, stuck detector, descendants-notified check at quiescence; non-trivial = runs with sleeps")
     cov.update(tie)
     res["coverage"] = cov
